@@ -21,6 +21,13 @@ STATUS = {
 # obsolete/intermediate codes exist (10h, 14h, 22h) but the library does not name them
 
 
+# status codes of earlier SAM revisions (obsolete since SAM-3/SAM-4) and their alternative spellings: not required, but if a
+# table lists one of these names it has to carry this value
+STATUS_OPTIONAL = {"INTERMEDIATE": 0x10, "INTERMEDIATE_CONDITION_MET": 0x14, "INTERMEDIATE_GOOD": 0x10, "INTERMEDIATE_C_GOOD": 0x14,
+                   "COMMAND_TERMINATED": 0x22, "QUEUE_FULL": 0x28, "TASK_SET_FULL": 0x28, "ACA_ACTIVE": 0x30, "TASK_ABORTED": 0x40,
+                   "CONDITION_GOOD": 0x04, "CONDITION_MET": 0x04}
+
+
 def group_length(op):
     """SAM-5 / SPC-4 4.2.5.1: CDB length by group code (bits 7:5 of byte 0).
     Groups 3 (60-7F: reserved / variable length 7Fh, 7Eh) and 6,7 (C0-FF vendor
